@@ -1138,15 +1138,6 @@ class FnLower:
         recv, m, args = strip_paren(e[1]), e[2], e[3]
         exn = self.extern_of(e, env)
         if exn is not None: return self.extern_call(exn, env, ops)
-        if m == "copy_from_slice" and len(args) == 1:
-            # `dst[a..b].copy_from_slice(&src[c..d])`: destination slice (bounds), source slice (bounds), equal lengths (panics otherwise), write-back
-            dv, name, wb = self.mlist_arg(("ref", True, recv), env, ops, "copy_from_slice")
-            sv = self.list_arg(args[0], env, ops, "copy_from_slice")
-            self.monadic_used = True
-            ops.append(("bind", "_", f"ckLen {dv.atom} {sv.atom}"))
-            ops.append(("let", name, sv.atom))
-            wb()
-            return ("v", Val("()", "unit"))
         r0 = strip_paren(recv[2]) if recv[0] == "ref" and not recv[1] else recv
         if m in ("value", "bit_count", "reduce") and not (r0[0] == "path" and len(r0[1]) == 1 and r0[1][0] in env and env[r0[1][0]].kind != "handle") \
                 and (self.abstracted(r0, env) is not None or self.abs_indexed(r0, env, mark=False) is not None):
@@ -3069,8 +3060,9 @@ def idxOp (l : List MulOperand) (i : Nat) : R MulOperand := match l[i]? with | s
 def slice (l : List Nat) (a b : Nat) : R (List Nat) := if a ≤ b ∧ b ≤ l.length then .ok ((l.drop a).take (b - a)) else .error .oob
 /-- write a callee's result for `&mut s[a..]` back (the callee cannot change the length of the sub-slice) -/
 def splice (l : List Nat) (a : Nat) (s : List Nat) : List Nat := l.take a ++ s ++ l.drop (a + s.length)
-/-- `copy_from_slice` panics unless source and destination have the same length -/
-def ckLen (a b : List Nat) : R Unit := if a.length = b.length then .ok () else .error .oob
+/-- `x[lo..hi].copy_from_slice(src)` (bounds already checked): panics unless the lengths agree (same definition as in Gen/PolyFns.lean) -/
+def copySlice (l : List Nat) (lo hi : Nat) (src : List Nat) : R (List Nat) :=
+  if src.length = hi - lo then .ok (splice l lo src) else .error .refused
 """
 
 # Gen/ScalingFns.lean (phase 4a): src/util/scaling_variant.rs, the BFV scaling  dest += / -= round(q*m/t)  (C01 / C02 / C07).
